@@ -150,6 +150,20 @@ def reparse_enclosed(P, rep, rule, acls, encl_f):
                 if not good and bad is None:
                     bad = f"value {''.join(seq)!r} enclosed as {op}{''.join(seq)}{cl} re-parses as {[(b[0], len(b[1].get('fields', []))) for b in blocks]}, not as one field"
         rep.check(bad is None, rule, f"reparse:{default}", encl_f.loc, bad or "")
+        # a brace-balanced value that ends in a backslash: for the lexer (every one-character mark is "not preceded by a backslash",
+        # C02.R1) the closing delimiter the middleware appends is escaped, i.e. it is no mark at all
+        toks = ["@x", "{", ",", "="] + list(op) + (list(cl)[1:] if len(cl) >= 1 else []) + ["}"]
+        ref = Ref()
+        ev = []
+        for i, tk in enumerate(toks):
+            ev.extend(ref.feed(Mark(tk, f"m{i}", i)))
+        ev.extend(ref.eof())
+        blocks = [e for e in ev if e[0] != "implicit"]
+        good = len(blocks) == 1 and blocks[0][0] == "entry" and len(blocks[0][1]["fields"]) == 1
+        n += 1
+        rep.check(good, rule, f"reparse:{default}:value-ending-in-backslash", encl_f.loc,
+                  f"a value ending in a backslash (e.g. `b\\`) enclosed as {op}b\\{cl} does not re-parse as one field: the closing delimiter "
+                  f"reads as escaped ({[(b[0]) for b in blocks]})")
     rep.count("reparse_values", n)
 
 
